@@ -40,9 +40,16 @@ let call_line = function
   | VamDev.CUnmap m -> Printf.sprintf "CALL unmap %s" (zs m)
   | VamDev.CFlush (inval, m, o, s, r) ->
     Printf.sprintf "CALL %s %s %s %s %s" (if inval then "inval" else "flush") (zs m) (zs o) (zs s) (zs r)
+  | VamDev.CCreate (image, res, r) -> Printf.sprintf "CALL %s %s %s" (if image then "cimg" else "cbuf") (zs res) (zs r)
+  | VamDev.CDestroy (image, res) -> Printf.sprintf "CALL %s %s" (if image then "dimg" else "dbuf") (zs res)
+  | VamDev.CReq (image, res) -> Printf.sprintf "CALL %s %s" (if image then "reqimg" else "reqbuf") (zs res)
+  | VamDev.CBind (image, res, m, o, r) ->
+    Printf.sprintf "CALL %s %s %s %s %s" (if image then "bindimg" else "bindbuf") (zs res) (zs m) (zs o) (zs r)
 
 let tag_name = function
-  | VamWorld.LA -> "A" | VamWorld.LDEV -> "DEV" | VamWorld.LHEAP -> "HEAP" | VamWorld.LSTATT -> "STATT"
+  | VamWorld.LA -> "A" | VamWorld.LT -> "T" | VamWorld.LRES -> "RES" | VamWorld.LMOVES -> "MOVES" | VamWorld.LMV -> "MV"
+  | VamWorld.LDEND -> "DEND" | VamWorld.LDSTATS -> "DSTATS"
+  | VamWorld.LDEV -> "DEV" | VamWorld.LHEAP -> "HEAP" | VamWorld.LSTATT -> "STATT"
   | VamWorld.LSTATH -> "STATH" | VamWorld.LSTATA -> "STATA" | VamWorld.LPOOLL -> "POOL"
   | VamWorld.LLIST -> "LIST" | VamWorld.LBLK -> "BLK" | VamWorld.LOBSPANIC -> "OBSPANIC"
 
@@ -69,6 +76,22 @@ let parse_op f =
   | "stats" when n = 1 -> WStats a.(0)
   | "destroy" when n = 0 -> WDestroy
   | "fault" when n = 4 -> WFault (a.(0), a.(1), a.(2), a.(3))
+  | "dbegin" when n = 5 -> WDBegin (a.(0), a.(1), a.(2), a.(3), a.(4))
+  | "dpass" when n = 1 -> WDPass a.(0)
+  | "dmove" when n = 3 -> WDMove (a.(0), a.(1), a.(2))
+  | "dend" when n = 1 -> WDEnd a.(0)
+  | "dfin" when n = 1 -> WDFin a.(0)
+  | "cbuf" when n = 15 -> WCBuf (a.(0), a.(1), a.(2), a.(3), a.(4), a.(5), a.(6), a.(7), a.(8), a.(9), a.(10), a.(11), a.(12), a.(13), a.(14))
+  | "cimg" when n = 15 -> WCImg (a.(0), a.(1), a.(2), a.(3), a.(4), a.(5), a.(6), a.(7), a.(8), a.(9), a.(10), a.(11), a.(12), a.(13), a.(14))
+  | "dbuf" when n = 2 -> WDRes (false, a.(0), a.(1))
+  | "dimg" when n = 2 -> WDRes (true, a.(0), a.(1))
+  | "rbuf" when n = 6 -> WRRes (false, a.(0), Z0, a.(1), a.(2), a.(3), a.(4), a.(5))
+  | "rimg" when n = 7 -> WRRes (true, a.(0), a.(1), a.(2), a.(3), a.(4), a.(5), a.(6))
+  | "rdres" when n = 1 -> WRdRes a.(0)
+  | "abuf" when n = 8 -> WARes (false, a.(0), a.(1), a.(2), a.(3), a.(4), a.(5), a.(6), a.(7))
+  | "aimg" when n = 8 -> WARes (true, a.(0), a.(1), a.(2), a.(3), a.(4), a.(5), a.(6), a.(7))
+  | "bbuf" when n = 3 -> WBRes (false, a.(0), a.(1), a.(2))
+  | "bimg" when n = 3 -> WBRes (true, a.(0), a.(1), a.(2))
   | _ -> WUnsupported
 
 let () =
@@ -111,6 +134,7 @@ let () =
           | VamWorld.WPanic -> print_endline "R panic"
           | VamWorld.WSkip -> print_endline "R skip"
           | VamWorld.WStuck -> print_endline "R stuck");
+         Stdlib.List.iter print_line so.VamWorld.so_extra;
          (match so.VamWorld.so_faults with Some n -> print_endline ("FAULTS " ^ zs n) | None -> ());
          Stdlib.List.iter (fun k -> print_endline (call_line k)) so.VamWorld.so_calls;
          let (w2, lines) = VamWorld.observe c w1 in
